@@ -278,3 +278,9 @@ class Run(object):
 
 class Precondition(Exception):
     """Raised by an op whose precondition does not hold: logged as skipped, no effect."""
+
+
+class HarnessBug(Exception):
+    """Raised when the harness's own preparation of a step fails (never esutil's doing): engines re-raise it
+    instead of judging it, so it ends as HARNESS-ERROR (exit 2), never as a VIOLATION."""
+
